@@ -208,7 +208,7 @@ PROPS["C07"] = {
                   P("test", "VerifFileStructure", w=2, k=1, maxn=4, distinct=0),
                   P("test", "VerifFileStructure", w=3, k=1, maxn=4, distinct=0),
                   P("test", "VerifFileStructure", must_reach=("end", "variable-chunks"), w=2, k=1, maxn=5, minn=1, varchunks=1),
-                  P("test", "VerifFileFragmentation", must_reach=("end", "eof-with-data"), w=2, k=2, maxlen=5),
+                  P("test", "VerifFileFragmentation", must_reach=("end", "eof-with-data", "empty-fragment"), w=2, k=2, maxlen=5),
                   P("test", "VerifFileFragmentation", must_reach=("end", "default-chunker"), w=2, k=2, maxlen=4, chunker=1)],
         "thorough": [P("test", "VerifFileStructure", must_reach=("end", "empty"), w=2, k=1, maxn=33),
                      P("test", "VerifFileStructure", w=3, k=1, maxn=40, minn=1),
@@ -288,7 +288,7 @@ PROPS["C10"] = {
         "quick": [P("test", "VerifShardedDirDeterminism", lg=3, entries=2, maxdepth=2),
                   P("test", "VerifPlainDirDeterminism", entries=3),
                   P("test", "VerifShardedDirDeterminism", lg=3, entries=3, maxdepth=3, shareprefix=2, sharetargets=0),
-                  P("test", "VerifFileFragmentation", must_reach=("end", "eof-with-data"), w=2, k=2, maxlen=5),
+                  P("test", "VerifFileFragmentation", must_reach=("end", "eof-with-data", "empty-fragment"), w=2, k=2, maxlen=5),
                   P("test", "VerifFileFragmentation", must_reach=("end", "default-chunker"), w=2, k=2, maxlen=4, chunker=1),
                   P("test", "VerifFileFragmentation", w=2, k=1, maxlen=4, distinct=0),
                   P("data/builder", "VerifEstimateDirSize"),
@@ -304,7 +304,7 @@ PROPS["C10"] = {
                      P("data/builder", "VerifAutoShardThreshold", must_reach=("end", "plain", "sharded")),
                      P("test", "VerifQuickBuilder", must_reach=("end",))],
     },
-    "bounds": {"quick": "sharded dir: 2 entries, fanout 8, depth<=2, built twice: every Go-map iteration order inside the shard builder x both entry orders (2-safety in one path); plain dir: 3 entries, all 6 orders; auto-shard decision at threshold-1/0/+1 with mixed link lengths in both orders; file: 0..5 bytes size-2, every fragmentation with fragments 1..3, also with repeated chunks, and with the default chunker (both spellings; thorough: rabin, buzhash) on 0..4 bytes; quick builder map directory under every map order",
+    "bounds": {"quick": "sharded dir: 2 entries, fanout 8, depth<=2, built twice: every Go-map iteration order inside the shard builder x both entry orders (2-safety in one path); plain dir: 3 entries, all 6 orders; auto-shard decision at threshold-1/0/+1 with mixed link lengths in both orders; file: 0..5 bytes size-2, every fragmentation with fragments 1..3 (the last one with or without io.EOF, one empty (0, nil) read anywhere), also with repeated chunks, and with the default chunker (both spellings; thorough: rabin, buzhash) on 0..4 bytes; quick builder map directory under every map order",
                "thorough": "3 entries sharded (all 6 orders x map orders), 4 entries plain, files to 7 bytes size-3"},
     "assumptions": ["the Go runtime's randomised map order is over-approximated by 'any permutation' (explorer-chosen)"],
     "outside": "rabin/buzhash under fragmentation",
@@ -337,12 +337,13 @@ PROPS["C12"] = {
                   P("test", "VerifFileKthLoadFails", w=2, k=1, maxlen=5),
                   P("test", "VerifFileMissingBlock", w=2, k=1, maxlen=4, distinct=0),
                   P("test", "VerifFileKthLoadFails", w=2, k=1, maxlen=4, distinct=0),
-                  P("test", "VerifHamtMissingShards", must_reach=("end", "lookup-blocked", "iterate"))],
-        "thorough": [P("test", "VerifFileMissingBlock", w=2, k=1, maxlen=9), P("test", "VerifFileMissingBlock", w=3, k=2, maxlen=12),
+                  P("test", "VerifHamtMissingShards", must_reach=("end", "lookup-blocked", "iterate")),
+                  P("test", "VerifHamtPreload", must_reach=("end", "missing"))],
+        "thorough": [P("test", "VerifHamtPreload", must_reach=("end", "missing")), P("test", "VerifFileMissingBlock", w=2, k=1, maxlen=9), P("test", "VerifFileMissingBlock", w=3, k=2, maxlen=12),
                      P("test", "VerifFileKthLoadFails", w=2, k=1, maxlen=9),
                      P("test", "VerifHamtMissingShards", must_reach=("end", "lookup-blocked", "iterate"))],
     },
-    "bounds": {"quick": "files 2..5 chunks (width 2): every single block missing (not-found, an arbitrary I/O error or io.ErrUnexpectedEOF) x buffers 1..2: exact prefix then non-EOF load error; the k-th load failing for symbolic k; both also over contents with repeated chunks (<= 4 chunks); hand-built HAMTs (4 shapes, up to 3 sub-shards over 3..4 levels): every subset of missing shards: lookups crossing one report the load error, iteration terminates, yields exactly the reachable entries once, one error per missing shard met",
+    "bounds": {"quick": "files 2..5 chunks (width 2): every single block missing (not-found, an arbitrary I/O error or io.ErrUnexpectedEOF) x buffers 1..2: exact prefix then non-EOF load error; the k-th load failing for symbolic k; both also over contents with repeated chunks (<= 4 chunks); hand-built HAMTs (4 shapes, up to 3 sub-shards over 3..4 levels): every subset of missing shards: preload reports it; lookups crossing one report the load error, iteration terminates, yields exactly the reachable entries once, one error per missing shard met",
                "thorough": "files to 9 / 12 chunks"},
     "assumptions": [], "outside": "",
 }
@@ -386,12 +387,12 @@ PROPS["C14"] = {
 # ---------------------------------------------------------------- C15
 PROPS["C15"] = {
     "programs": {
-        "quick": [P("test", "VerifLinkMapContract", must_reach=("end", "absent-key", "present-key"), links=2),
+        "quick": [P("test", "VerifLinkMapContract", must_reach=("end", "absent-key", "present-key", "dagpb-string-key"), links=2),
                   P("test", "VerifHamtReaderWellFormed", must_reach=("end", "member", "non-member", "iterate", "enumerate-then-lookup", "lookup-then-enumerate", "empty-key")), P("test", "VerifHamtReaderWellFormed", must_reach=("end", "member", "non-member", "iterate", "enumerate-then-lookup", "lookup-then-enumerate", "empty-key"), lg=9, hi=1),
                   P("hamt", "VerifMatchKey"), P("hamt", "VerifIsValueLink"), P("hamt", "VerifTransformName"),
                   P("hamt", "VerifReaderDeepChain", must_reach=("end", "too-deep", "deep-ok")),
                   P("test", "VerifShardedDir", lg=3, entries=2, maxdepth=2)],
-        "thorough": [P("test", "VerifLinkMapContract", must_reach=("end", "absent-key", "present-key"), links=3),
+        "thorough": [P("test", "VerifLinkMapContract", must_reach=("end", "absent-key", "present-key", "dagpb-string-key"), links=3),
                      P("test", "VerifHamtReaderWellFormed", must_reach=("end", "member", "non-member", "iterate", "enumerate-then-lookup", "lookup-then-enumerate", "empty-key")),
                      P("test", "VerifShardedDir", lg=3, entries=3, maxdepth=2)],
     },
@@ -452,7 +453,7 @@ PROPS["C18"] = {
 PROPS["C19"] = {
     "programs": {"quick": [P("testutil", "VerifFixtureGenerators", must_reach=("end", "unixfs-directory", "custom-generator"), target=2048, freecoins=5, freenames=1),
                            P("testutil", "VerifFixtureGenerators", must_reach=("end", "unixfs-directory", "custom-generator"), target=2048, freecoins=0, freenames=3),
-                           P("testutil", "VerifFixtureFile", must_reach=("end", "short-source")),
+                           P("testutil", "VerifFixtureFile", must_reach=("end", "short-source", "eof-with-data")),
                            P("testutil", "VerifFixtureWrap", must_reach=("end", "with-siblings", "empty-path"))]},
     "native_any_label": True,
     "bounds": {"quick": "UnixFSDirectory (default, sharded bit-width 3, custom child generator), GenerateDirectory (plain/sharded), UnixFSFile sizes 0..3, BuildDirectory; target size 2048; the first 5 dice and the first generated name are explorer-chosen (every value) — and, in a second program, the first 3 generated names (so repeated draws of one name arise) —, later draws are scripted (file, largest size, fresh name); WrapContent under paths of 0..3 segments (incl. '', '/', 'a//b'), exclusive or with generated siblings before/after at every level: names, links, contents at every level and the wanted content at the path"},
